@@ -82,7 +82,9 @@ func (o *signalHandler) addSignalUser(userID uint64, signalID, messageID uint32,
 	for _, user := range o.signals {
 		if user.userID == userID {
 			o.signalsMutex.Unlock()
-			user.context.EndPoint().RemoveHandler(user.contextID)
+			// the registration is refused: drop the handler just
+			// created, the existing user keeps its own.
+			e.RemoveHandler(newUser.contextID)
 			return fmt.Errorf("user %d already exists", userID)
 		}
 	}
